@@ -110,7 +110,10 @@ static void vsx_explore(const struct vsx_scenario *sc, int bound) {
     (void)bound;
     char path[300];
     uint64_t all = 0, lib = 0, died = 0;
+    int runs_done = 0;
     for (int r = 0; r < VSX_FREE_RUNS; ++r) {
+        if (v_past_deadline()) break; /* sampling pass: stopping early costs nothing */
+        ++runs_done;
         snprintf(path, sizeof(path), "/verif/build/tmp/tsan-%d-%d.log", (int)getpid(), r);
         fflush(stdout);
         pid_t p = fork();
@@ -130,11 +133,11 @@ static void vsx_explore(const struct vsx_scenario *sc, int bound) {
         vsx_free_scan(path, sc->name, &all, &lib);
         unlink(path);
     }
-    V_COUNT("tsan_free_runs", VSX_FREE_RUNS);
+    V_COUNT("tsan_free_runs", runs_done);
     V_COUNT("tsan_race_reports_total", all);
     V_COUNT("tsan_library_race_reports", lib);
     V_COUNT("tsan_runs_died", died);
-    v_out("INFO free-running tsan pass %s: runs=%d race_reports=%" PRIu64 " in_library=%" PRIu64 " died=%" PRIu64, sc->name, VSX_FREE_RUNS, all, lib, died);
+    v_out("INFO free-running tsan pass %s: runs=%d race_reports=%" PRIu64 " in_library=%" PRIu64 " died=%" PRIu64, sc->name, runs_done, all, lib, died);
 }
 static int vsx_replay(const struct vsx_scenario *sc, const char *token) {
     (void)sc;
